@@ -125,14 +125,21 @@ func TypeTable(p *core.Prog, r *core.Report) {
 			ttDatum{"0.0", fl(aFloat64, 0), "number", true, false, true},
 		)
 	}
+	// fractional values so large that a relative tolerance mistakes them for integers (reported under a key of
+	// their own: the integrality test is a dependency's, swag.IsFloat64AJSONInteger)
+	nPlain := len(data)
+	data = append(data,
+		ttDatum{"1000000000.5", fl(aFloat64, 1000000000.5), "number", false, false, true},
+		ttDatum{"250000001.5", fl(aFloat64, 250000001.5), "number", false, false, true},
+	)
 	typeLists := [][]string{{"null"}, {"boolean"}, {"string"}, {"integer"}, {"number"}, {"array"}, {"object"}, {"string", "null"}, {"integer", "string"}}
 	if Deep {
 		typeLists = append(typeLists, []string{"number", "null"}, []string{"array", "object"}, []string{"boolean", "integer", "null"}, []string{"number", "integer"})
 	}
 	na := newNilAn(p)
-	var bad, undet []string
+	var bad, undet, badTol []string
 	n := 0
-	for _, d := range data {
+	for dIdx, d := range data {
 		for _, tl := range typeLists {
 			for _, nullable := range []bool{false, true} {
 				for _, format := range []string{"", "date"} {
@@ -199,9 +206,17 @@ func TypeTable(p *core.Prog, r *core.Report) {
 					case !okRet && !errRet:
 						undet = append(undet, caseName+" (no return reached)")
 					case want && !okRet:
-						bad = append(bad, caseName+": rejected, draft 4 says valid")
+						if dIdx >= nPlain {
+							badTol = append(badTol, caseName+": rejected, draft 4 says valid")
+						} else {
+							bad = append(bad, caseName+": rejected, draft 4 says valid")
+						}
 					case !want && okRet:
-						bad = append(bad, caseName+": accepted, draft 4 says invalid type")
+						if dIdx >= nPlain {
+							badTol = append(badTol, caseName+": accepted, draft 4 says invalid type")
+						} else {
+							bad = append(bad, caseName+": accepted, draft 4 says invalid type")
+						}
 					}
 				}
 			}
@@ -229,6 +244,16 @@ func TypeTable(p *core.Prog, r *core.Report) {
 		r.Bad(rule, "typeValidator:draft4", pos, "the type validator disagrees with draft 4: "+strings.Join(bad, "; ")+more)
 	} else {
 		r.OK(rule, "typeValidator:draft4", pos, fmt.Sprintf("the verdict of `type` agrees with draft 4 on all %d cases of the table", n))
+	}
+	if len(badTol) > 0 {
+		more := ""
+		if len(badTol) > 3 {
+			more = fmt.Sprintf(" … %d more", len(badTol)-3)
+			badTol = badTol[:3]
+		}
+		r.Bad(rule, "typeValidator:integrality-tolerance", pos, "a number with a fractional part is taken for an integer when it is large enough for the relative tolerance (1e-9) of swag.IsFloat64AJSONInteger: "+strings.Join(badTol, "; ")+more)
+	} else {
+		r.OK(rule, "typeValidator:integrality-tolerance", pos, "no large fractional value of the table is taken for an integer")
 	}
 	_ = types.Typ
 }
